@@ -1058,7 +1058,7 @@ func raceVerdict(out string, code int) *Violation {
 }
 
 func checkRaceCase(c *Case, ri *RunInfo) (*Violation, *RunInfo) {
-	f, err := os.CreateTemp("", "racecase-*.json")
+	f, err := os.CreateTemp(os.Getenv("VERIF_SCRATCH_DIR"), "racecase-*.json")
 	if err != nil {
 		fatal2("%v", err)
 	}
